@@ -12,6 +12,8 @@ require (
 	github.com/dlclark/regexp2 v1.11.5 // indirect
 	github.com/go-sql-driver/mysql v1.9.3 // indirect
 	github.com/ncruces/go-strftime v1.0.0 // indirect
+	github.com/spf13/cobra v1.10.2 // indirect
+	github.com/spf13/pflag v1.0.9 // indirect
 )
 
 replace github.com/php-any/origami => /repo
